@@ -76,6 +76,10 @@ def run(world_args, steps, scenario=None):
             world.cl_down(st[1])
         elif st[0] == 'cl_up':
             world.cl_up(st[1])
+        elif st[0] == 'cl_attach':
+            world.cl_attach_late(st[1])
+        elif st[0] == 'idle_n':
+            world.run_idle(max_steps=st[1])
     if world.run_idle(max_steps=20000) >= 20000:
         raise RuntimeError('scenario did not quiesce within 20000 deferred callbacks')
     return world.finish(scenario or {})
@@ -549,6 +553,28 @@ def c05_executions(tier, seed):
         traces.append(run({'rx_routes': rx, 'tx_routes': tx}, steps))
         metas.append({'mode': mode, 'total': total, 'mtu': mtu, 'envelope': env, 'whole': whole, 'ext': ename,
                       'crc': crc, 'case': special, 'flags': flags, 'own_blocks_octets': delta})
+    # two routes to the same destination over different convergence layers with different MTUs (through the real
+    # adaptors), and the CL daemon of the preferred route away while the bundle is accepted and back before its
+    # fragments are handed over: whatever route a fragment takes, it fits that route
+    for k in range(12 if tier == 'quick' else 120):
+        (m1, m2) = rnd.choice([(120, 300), (300, 120), (150, 151), (200, 1000), (1000, 200)])
+        (c1, c2) = rnd.choice([('udpcl', 'btpu'), ('btpu', 'udpcl')])
+        total = rnd.choice([400, 1000, 2500])
+        octets = mk(src='dtn://src/app', dest='dtn://other/svc', rpt='dtn:none', flags=0, crc=rnd.choice([0, 1, 2]),
+                    pay=payload(total, k), ts=(7000 + k, 1))
+        away = rnd.choice([c1, c1, c2])
+        script = rnd.choice([['down', 'recv', 'up', 'idle'], ['recv', 'down', 'up', 'idle'], ['down', 'up', 'recv', 'idle'],
+                             ['recv', 'one', 'attach', 'idle'], ['recv', 'one', 'attach', 'idle'], ['recv', 'two', 'attach', 'idle'],
+                             ['recv', 'one', 'down', 'up', 'idle'], ['attach', 'recv', 'idle']])
+        steps = []
+        for st in script:
+            steps.append({'down': ('cl_down', away), 'up': ('cl_up', away), 'recv': ('recv', octets, {'note': 'two routes'}),
+                          'idle': ('idle',), 'attach': ('cl_attach', away), 'one': ('idle_n', 1), 'two': ('idle_n', 2)}[st])
+        tx = [('dtn://other/', 'dtn://other/', m1, c1), ('dtn://other/', 'dtn://other/', m2, c2)]
+        traces.append(run({'rx_routes': [('dtn://other/', 'forward')], 'tx_routes': tx, 'adaptors': True,
+                           'defer_attach': (away,) if 'attach' in script else ()}, steps))
+        metas.append({'mode': 'forward', 'total': total, 'mtu': [m1, m2], 'case': 'two routes, CL away or not yet known meanwhile',
+                      'cl': [c1, c2], 'away': away, 'script': script})
     return traces, metas
 
 
@@ -606,14 +632,26 @@ def c06_executions(tier, seed):
             victim = rnd.choice(arrivals)
             arrivals = [a for a in arrivals if a != victim]
         steps = []
+        ndamaged = 0
         for (bi, fi) in arrivals:
-            steps.append(('recv', bundles[bi][1][fi], {'note': 'b%d f%d' % (bi, fi)}))
+            octets = bundles[bi][1][fi]
+            # now and then a copy damaged on the way (one bit inside a CRC-protected block) arrives before the
+            # intact one: it is dropped and must not stand in the way of the intact copy
+            if k % 3 == 0 and rnd.random() < 0.4:
+                muts = corruptions(octets, rnd, False, 1)
+                if muts:
+                    steps.append(('recv', muts[0][0], {'note': 'b%d f%d damaged: %s' % (bi, fi, muts[0][1]), 'corrupt': True}))
+                    ndamaged += 1
+                    if rnd.random() < 0.5:
+                        steps.append(('idle',))
+            steps.append(('recv', octets, {'note': 'b%d f%d' % (bi, fi)}))
             if rnd.random() < 0.6:
                 steps.append(('idle',))
         rx = [(PROBE, 'deliver')]
         tx = [('dtn://rpt/', 'dtn://rpt/', None)]
         traces.append(run({'rx_routes': rx, 'tx_routes': tx}, steps, scenario={'orig': orig}))
-        metas.append({'bundles': [[s, len(f)] for (s, f) in bundles], 'arrivals': arrivals, 'dropped_one': drop})
+        metas.append({'bundles': [[s, len(f)] for (s, f) in bundles], 'arrivals': arrivals, 'dropped_one': drop,
+                      'damaged_copies_first': ndamaged})
     # long histories: the repeats of a completed bundle's fragments arrive after many other bundles, and a bundle
     # of very many fragments arrives twice over (what has been seen must not be forgotten)
     for k in range(2 if tier == 'quick' else 12):
